@@ -18,6 +18,18 @@ Example stale_id_rejected :
                 (false, Release LStudy); (false, Done)]] = false.
 Proof. vm_compute. reflexivity. Qed.
 
+(* ... the lock order: the study lock may not be taken inside the evolution lock (the other way round is what the code does) *)
+Example lock_order_rejected :
+  req false (Acquire LStudy) (with_locks [LAlgo] a0) = false /\ req false (Acquire LAlgo) (with_locks [LStudy] a0) = true.
+Proof. vm_compute. split; reflexivity. Qed.
+
+(* ... and the outcome of a trial may not be written once its report is no longer outstanding (unless the trial is infeasible) *)
+Example final_after_report_rejected :
+  let own := set_cur_facts true true (Some false) false a0 in
+  req_eff ESetFinalLast (set_debts false false false false false false false true own) = false /\
+  req_eff ESetFinalLast (set_debts false false false false false false true true own) = true.
+Proof. vm_compute. split; reflexivity. Qed.
+
 (* the quiescence hypothesis of the theorems is satisfiable on the generated programs: two co-workers of one group, two
    trials requested, an alternating schedule; both finish, two trials 1..2 exist, both completed and reported once *)
 Definition ex_cfg : cfg := {| c_max := Some 2; c_evo := true; c_needs_fb := true; c_pop := 2; c_policy := false; c_stop := [] |}.
@@ -31,5 +43,6 @@ Example quiescence_reachable :
   finished (snd st) = true /\
   map t_id (s_trials (studies (fst st) 0)) = [1; 2] /\
   map t_done (s_trials (studies (fst st) 0)) = [true; true] /\
-  map t_fed (s_trials (studies (fst st) 0)) = map (fun x => if t_inf x then 0 else 1) (s_trials (studies (fst st) 0)).
+  map t_fed (s_trials (studies (fst st) 0)) = map (fun x => if t_inf x then 0 else 1) (s_trials (studies (fst st) 0)) /\
+  a_fedv (alg (fst st)) = [(0, 1, 4%Z)] /\ map t_final (s_trials (studies (fst st) 0)) = [Some 4%Z; Some 0%Z].
 Proof. vm_compute. repeat split; reflexivity. Qed.
